@@ -247,11 +247,16 @@ func (in *c05Inst) check(c *mc.Ctx, path []string, group string) {
 		return
 	}
 	rep := map[string]interface{}{"engine": "c05.icmc", "ops": path, "group": group, "timeout": in.T}
+	if strings.Contains(group, "two-groups") {
+		rep["engine"] = "c05.twogroups"
+	}
 	bad := func(sig, format string, a ...interface{}) {
 		c.Report("C05|"+sig, fmt.Sprintf(format, a...)+fmt.Sprintf(" [group %s T=%d, block %d = %s] after %s", group, in.T, st.height, st.desc, joinOps(path)), rep)
 	}
 	c.Add("oracle_evaluations", 1)
 	m, g, r := in.m, in.g, in.w.R
+	// "is told": what the router hands to each chain's pier for this block is what the block lists
+	icCheckRouterNotices(c, r, st.height, st.res.Meta, []string{fix.ChainA, fix.ChainB, fix.ChainW}, bad)
 	ok, data := viewState(r, constant.TransactionMgrContractAddr, contracts.GlobalTxInfoKey(g.globalID()))
 	info := contracts.TransactionInfo{}
 	if ok {
@@ -388,7 +393,9 @@ func C05(c *mc.Ctx) {
 		}
 		b.Run()
 	}
+	c05TwoGroups(c)
 	fix.Cleanup()
+	c.Set("rule_two_groups", "two groups of two source services of ONE source chain (identical destination maps, T=2) on one world: begins, success and failure receipts of either group and empty blocks, so that one group times out in the block in which the other fails; the C05 invariants are evaluated for both groups after every block, and the timeout / group-rollback notifications the real router hands to each chain are compared with the block's lists")
 	c.Set("rule", "BFS over block histories of child begins, success/failure/rollback receipts (also duplicates, receipts before begin, several per block) and empty blocks for three groups: 2 children on 2 destination chains; a group whose first child is refused by a blacklisting destination; 3 children with one unregistered destination; timeout 0 and 2. After every block: global SUCCESS only with all children succeeded; once a child failed or the group timed out the global and every child status are in the failure/rollback family for ever; all-succeeded implies global SUCCESS; in the failing block the source chain is told about every begun child and each destination chain about its already-succeeded child (union of delivery, multi-tx and timeout notification sets)")
 	c.Assume("proofs valid; destination W uses the true/false WASM rule with accepting proofs")
 	if c.Get("doom_blocks_checked") == 0 || c.Get("global_success_states") == 0 {
@@ -396,7 +403,45 @@ func C05(c *mc.Ctx) {
 	}
 }
 
+// c05TwoGroups: two groups from two services of the same source chain on one world.
+func c05TwoGroups(c *mc.Ctx) {
+	ops := []string{"1:b:c1+b:c2", "2:b:c1+b:c2", "2:r:c2:f", "1:r:c1:s", "empty", "2:b:c1", "1:r:c2:f", "2:r:c1:s"}
+	depth := 5
+	if c.Quick() {
+		depth = 4
+		ops = ops[:6]
+	}
+	b := &mc.BFS{C: c, Name: "icmc-two-groups-T2", MaxDepth: depth,
+		Init:    func() mc.Instance { return newC06TwoGroups(2) },
+		Enabled: func(x mc.Instance, d int) []string { return ops },
+		Apply: func(x mc.Instance, op string, path []string) (bool, bool) {
+			return x.(*c06TwoGroups).apply(op), false
+		},
+		Key: func(x mc.Instance) string {
+			t := x.(*c06TwoGroups)
+			return t.a.w.R.State.Digest() + t.a.w.R.Chain.Digest() + fmt.Sprint(t.a.m.doomed, t.a.m.doomedAt, t.b.m.doomed, t.b.m.doomedAt)
+		},
+		Check: func(x mc.Instance, path []string) {
+			t := x.(*c06TwoGroups)
+			t.a.c05Inst.check(c, path, "G(two-groups)")
+			t.b.c05Inst.check(c, path, "G2(two-groups)")
+		},
+		Close: func(x mc.Instance) { x.(*c06TwoGroups).a.w.R.Close() },
+	}
+	b.Run()
+}
+
 func init() {
+	Replayers["c05.twogroups"] = func(c *mc.Ctx, r map[string]interface{}) {
+		t := newC06TwoGroups(2)
+		path := strList(r["ops"])
+		for i, op := range path {
+			t.apply(op)
+			t.a.c05Inst.check(c, path[:i+1], "G(two-groups)")
+			t.b.c05Inst.check(c, path[:i+1], "G2(two-groups)")
+		}
+		t.a.w.R.Close()
+	}
 	Registry["C05"] = C05
 	Replayers["c05.icmc"] = func(c *mc.Ctx, r map[string]interface{}) {
 		group, _ := r["group"].(string)
